@@ -705,8 +705,29 @@ impl Drop for Unprivileged {
     }
 }
 
+/// Root, and the work directory can be reached by `nobody` (a snapshot of the verification tree
+/// under a mode-700 directory such as /root cannot): probed once per process with a readable file.
 fn can_drop_privileges() -> bool {
-    unsafe { libc::geteuid() == 0 }
+    static OK: std::sync::OnceLock<bool> = std::sync::OnceLock::new();
+    *OK.get_or_init(|| {
+        if unsafe { libc::geteuid() } != 0 {
+            return false;
+        }
+        let dir = PathBuf::from(format!("{}/work", crate::engine::verif_root()));
+        let _ = std::fs::create_dir_all(&dir);
+        let probe = dir.join(format!(".c17-probe-{}", std::process::id()));
+        if std::fs::write(&probe, b"x").is_err() {
+            return false;
+        }
+        use std::os::unix::fs::PermissionsExt;
+        let _ = std::fs::set_permissions(&probe, std::fs::Permissions::from_mode(0o644));
+        let readable = match Unprivileged::enter() {
+            Some(_guard) => std::fs::read(&probe).is_ok(),
+            None => false,
+        };
+        let _ = std::fs::remove_file(&probe);
+        readable
+    })
 }
 
 /// Sets the working directory for the life time of the value; leaves it at `back` afterwards so
@@ -1298,7 +1319,7 @@ fn prepare(cx: &mut CaseCtx, case: &Case) -> Result<Prepared, Fail> {
 fn run_case(cx: &mut CaseCtx, case: &Case) -> CaseResult {
     if case.unprivileged && !can_drop_privileges() {
         // counted, not a hollow pass: `essential` does not demand the perm labels then
-        cx.label("perm-skipped-not-root");
+        cx.label("perm-skipped-cannot-drop-privileges");
         return Ok(());
     }
     cx.set_key(case);
@@ -2047,6 +2068,10 @@ impl Check for C17 {
     fn needs_binary(&self) -> bool {
         true
     }
+    fn fuzz_families(&self, _tier: Tier) -> Vec<(&'static str, u64)> {
+        // libFuzzer runs per job (16 jobs), sized from the measured speed of the instrumented build
+        vec![("tree", 6000)]
+    }
     fn families(&self, tier: Tier) -> Vec<Family<'_>> {
         vec![
             Family::bytes("tree", 256, tier.pick(1000, 20_000), |cx, i| generated_case(cx, i, Flavour::InProcess)),
@@ -2069,7 +2094,7 @@ impl Check for C17 {
             "permission_faults": if can_drop_privileges() {
                 "mode-000 entries exercised with euid nobody (family perm)"
             } else {
-                "skipped: the process cannot drop privileges (counted under perm-skipped-not-root)"
+                "skipped: the process cannot drop privileges or the work directory is not reachable by `nobody` (counted under perm-skipped-cannot-drop-privileges)"
             }
         })
     }
